@@ -188,12 +188,46 @@ def run(ctx):
                 pvlib.report_violation(ctx, f"warc_parallel:{j}:{z}:{hx(data)[:40]}", {"argv": ["warc_parallel"] + args + ["cat"], "stdin_hex": hx(data)[:200000], "status": st,
                                        "stderr": err.decode(errors="replace")[-300:]}, summary=f"warc_parallel {' '.join(args)} cat: {problem}")
                 break
+    # per-record .warc.gz input whose FIRST member ends 0..7 bytes before / after the end of the reader's 16384-byte input chunk (the
+    # chunks start behind the 6 magic bytes): stored (level 0) members have an exactly known length, body + 23 bytes below 64 KiB.
+    # Every layout must give the records back; the same file cut 1..5 bytes into the second member's header must be an error.
+    def stored_member(data):
+        m = gzip.compress(data, 0, mtime=0)
+        return m
+    probe = len(stored_member(b"x" * 1000)) - 1000
+    for gap in range(-3, 9):
+        first_len = 6 + 16384 - gap                     # the first member ends `gap` bytes before the end of chunk 1
+        r1 = rec(b"", (b"WARC-Target-URI: first",))
+        pad = first_len - probe - len(r1)
+        r1 = rec(bytes(65 + i % 26 for i in range(pad)), (b"WARC-Target-URI: first",))
+        r1 = r1[:len(r1)]                                  # header grows with the digits of Content-Length: re-fit below
+        while len(stored_member(r1)) != first_len and pad > 0:
+            pad -= len(stored_member(r1)) - first_len
+            r1 = rec(bytes(65 + i % 26 for i in range(pad)), (b"WARC-Target-URI: first",))
+        rs = [r1, rec(b"second body " * 50, (b"WARC-Target-URI: second",)), rec(b"third", (b"WARC-Target-URI: third",))]
+        blob = b"".join(stored_member(r) for r in rs)
+        fits = len(stored_member(r1)) == first_len
+        x = pvlib.run_lines(impl, [f"warc.read - {hx(blob)}"], env=pvlib.san_env())[0]
+        ctx.count("warc.read.gz-member-boundary", 1, [(gap, fits)])
+        if not x.startswith("ok ") or classify(x) != (rs, None):
+            pvlib.report_violation(ctx, f"warc-gz-boundary:{gap}", {"ops": [f"warc.read - {hx(blob)}"], "impl": x[:300], "first_member_bytes": len(stored_member(r1)),
+                                   "layout": f"three stored gzip members; the first ends {gap} byte(s) before offset 6 + 16384"},
+                                   summary=f"per-record gzip input whose first member ends {gap} byte(s) before the end of the reader's first 16384-byte chunk: {x[:80]}; expected the 3 records")
+            break
+        if 1 <= gap <= 5:
+            cut = blob[:len(stored_member(r1)) + gap]       # ... plus the first `gap` bytes of the second member's header
+            xc = pvlib.run_lines(impl, [f"warc.read - {hx(cut)}"], env=pvlib.san_env())[0]
+            ctx.count("warc.read.gz-member-boundary-cut", 1, [gap])
+            if "ERR" not in xc:
+                pvlib.report_violation(ctx, f"warc-gz-boundary-cut:{gap}", {"ops": [f"warc.read - {hx(cut)}"], "impl": xc[:300]},
+                                       summary=f"gzip input cut {gap} byte(s) into the second member's header (at the end of the reader's first chunk): {xc[:80]} instead of an error")
+                break
     # -z: every record is compressed on its own with util::GZCompress; its buffer-edge cases come up about once in 1500
     # records of 60..130 kB, so the routine is also driven directly on several thousand record-sized bodies (in parallel)
     from concurrent.futures import ThreadPoolExecutor
     implz = os.path.join(ctx.bdir, "harness", "implcompress")
     nproc, per = 16, (300 if ctx.tier == "quick" else 4000)
-    gops = [f"z.gzcompressrand {ctx.seed * 100 + 50 + k} {per} 60000 130000" for k in range(nproc)]
+    gops = [f"z.gzcompressrand {ctx.seed * 100 + 50 + k} {per} 60000 200000" for k in range(nproc)]
     with ThreadPoolExecutor(max_workers=nproc) as ex:
         gres = list(ex.map(lambda o: pvlib.run_lines(implz, [o], env=pvlib.san_env(), timeout=3000, per_line_timeout=3000, stall=3000)[0], gops))
     ctx.count("gzcompress-record-bodies", len(gops), gops)
